@@ -23,6 +23,44 @@ func calleeName(c *ssa.CallCommon) string {
 	return "dynamic call"
 }
 
+// funcTypeContract finds the functype contract for a call through a function
+// value: by the name of a named function type, or - for an unnamed function
+// type - by its signature as it would be written in the function's package.
+func (f *FuncVC) funcTypeContract(c *ssa.CallCommon) *Contract {
+	if c.IsInvoke() || c.StaticCallee() != nil || f.eng.funcTypes == nil {
+		return nil
+	}
+	if nt, ok := c.Value.Type().(*types.Named); ok && nt.Obj().Pkg() != nil {
+		return f.eng.funcTypes[nt.Obj().Pkg().Path()+"."+nt.Obj().Name()]
+	}
+	sig, ok := c.Value.Type().(*types.Signature)
+	if !ok {
+		return nil
+	}
+	pkg := f.fn.Pkg.Pkg
+	qual := func(p *types.Package) string {
+		if p == pkg {
+			return ""
+		}
+		return p.Name()
+	}
+	var pt, rt []string
+	for i := 0; i < sig.Params().Len(); i++ {
+		pt = append(pt, types.TypeString(sig.Params().At(i).Type(), qual))
+	}
+	for i := 0; i < sig.Results().Len(); i++ {
+		rt = append(rt, types.TypeString(sig.Results().At(i).Type(), qual))
+	}
+	key := "(" + strings.Join(pt, ",") + ")(" + strings.Join(rt, ",") + ")"
+	for _, name := range sortedKeys(f.eng.funcTypes) {
+		con := f.eng.funcTypes[name]
+		if con.PkgPath == pkg.Path() && con.SigKey == key {
+			return con
+		}
+	}
+	return nil
+}
+
 // contractFor finds the contract of a call target.
 func (f *FuncVC) contractFor(c *ssa.CallCommon) *Contract {
 	if c.IsInvoke() {
@@ -65,13 +103,9 @@ func (f *FuncVC) call(st *State, x *ssa.Call) *Val {
 	if con := f.contractFor(c); con != nil {
 		return f.applyContract(st, x, con, args)
 	}
-	if !c.IsInvoke() && c.StaticCallee() == nil && f.eng.funcTypes != nil {
-		// call through a value of a named function type with a declared contract
-		if nt, ok := c.Value.Type().(*types.Named); ok && nt.Obj().Pkg() != nil {
-			if con := f.eng.funcTypes[nt.Obj().Pkg().Path()+"."+nt.Obj().Name()]; con != nil && len(args) == len(con.Params) {
-				return f.applyContract(st, x, con, args)
-			}
-		}
+	if con := f.funcTypeContract(c); con != nil && len(args) == len(con.Params) {
+		// call through a function value whose type has a declared contract
+		return f.applyContract(st, x, con, args)
 	}
 	if r, ok := f.fieldFuncCall(st, x, args); ok {
 		return r
@@ -365,10 +399,8 @@ func (f *FuncVC) callEffects(x *ssa.Call, hs *havocSet) {
 		return
 	}
 	con := f.contractFor(c)
-	if con == nil && !c.IsInvoke() && c.StaticCallee() == nil && f.eng.funcTypes != nil {
-		if nt, ok := c.Value.Type().(*types.Named); ok && nt.Obj().Pkg() != nil {
-			con = f.eng.funcTypes[nt.Obj().Pkg().Path()+"."+nt.Obj().Name()]
-		}
+	if con == nil {
+		con = f.funcTypeContract(c)
 	}
 	if con != nil {
 		if !con.HasMod {
